@@ -907,6 +907,12 @@ class Engine:
                 u = np.asarray(self._eval(h, w2[:cut], accessor), dtype=np.complex128)
                 v = np.asarray(self._eval(h, w2[cut:], accessor), dtype=np.complex128)
                 red = _reduce(w2)
+                if h.simple:
+                    # the library's own free reduction
+                    lib = self.words.simplify_word("".join(w2))
+                    if not isinstance(lib, str) or any(ch not in h.gens for ch in lib):
+                        return ("R.reduce", "simplify_word(%r) = %r is not a word in the generators" % ("".join(w2), lib))
+                    red = list(lib)
                 r = np.asarray(self._eval(h, red, accessor), dtype=np.complex128)
             except Exception as e:
                 return ("R.eval.raised", "evaluating a subword of %r raised %r" % (w2, e))
